@@ -213,3 +213,22 @@ pub fn twin_history(rng: &mut Rng, fl: &str, id: &str, nnodes: usize, ncalls: us
     l
 }
 
+/// a program for the `z*` flavours (zero-sized node and edge values): every value becomes 0
+pub fn zst(lines: Vec<String>) -> Vec<String> {
+    lines
+        .into_iter()
+        .map(|l| {
+            let t: Vec<&str> = l.split(' ').collect();
+            match t[0] {
+                "new" if t.len() == 3 => format!("new {} 0", t[1]),
+                "connect" | "try_connect" if t.len() >= 4 => {
+                    let mut v: Vec<String> = t.iter().map(|x| x.to_string()).collect();
+                    v[3] = "0".into();
+                    v.join(" ")
+                }
+                _ => l,
+            }
+        })
+        .collect()
+}
+
